@@ -547,6 +547,70 @@ def r8_uniform_result_ownership(ctx):
              "return paths")
 
 
+
+def r9_defaults_deep_copied(ctx):
+    """Object state built from a module-level table of defaults starts from
+    objects of its own: `Cls(**TABLE)`, `dict(TABLE)`, `TABLE.copy()` and
+    `{**TABLE}` copy the table but *share its mutable entries* (the default
+    `range_x` list, the default options dictionaries).  An in-place edit of
+    such an entry through one curve then edits the default of every later
+    fit - a result that depends on the history of other curves.  Accepted:
+    the table (or the copy) goes through copy.deepcopy, or the table has no
+    mutable entry."""
+    from ..sharedstate import _global_value, _is_mutable_display
+    n_sites = 0
+    for m, q, f in ctx.repo.all_funcs():
+        if m.name.startswith("cli."):
+            continue
+        for c in calls_in(f):
+            cands = []
+            for k in c.keywords:
+                if k.arg is None and isinstance(k.value, ast.Name):
+                    cands.append((k.value, f"{norm(c.func)}(**{k.value.id})"))
+                elif k.arg is None and isinstance(k.value, ast.Call) and (
+                        call_name(k.value) or "").endswith("deepcopy") and \
+                        k.value.args and isinstance(
+                            k.value.args[0], ast.Name) and _global_value(
+                            ctx.repo, m, k.value.args[0].id) is not None:
+                    n_sites += 1
+                    ctx.ok(c, f"{norm(c.func)}(**deepcopy("
+                           f"{k.value.args[0].id})) keeps entries of its own")
+            cn = call_name(c) or ""
+            if cn in ("dict", "OrderedDict") and len(c.args) == 1 and \
+                    isinstance(c.args[0], ast.Name):
+                cands.append((c.args[0], f"{cn}({c.args[0].id})"))
+            if isinstance(c.func, ast.Attribute) and c.func.attr == "copy" \
+                    and not c.args and isinstance(c.func.value, ast.Name):
+                cands.append((c.func.value, f"{c.func.value.id}.copy()"))
+            for nm, how in cands:
+                tab = _global_value(ctx.repo, m, nm.id)
+                if tab is None or nm.id in func_params(f):
+                    continue
+                vals = []
+                if isinstance(tab, ast.Dict):
+                    vals = list(tab.values)
+                elif isinstance(tab, ast.Call) and norm(tab.func) in (
+                        "dict", "OrderedDict"):
+                    vals = [k.value for k in tab.keywords]
+                muts = [v for v in vals if _is_mutable_display(v)]
+                if not muts:
+                    continue
+                n_sites += 1
+                # deep copy around the call?
+                par = getattr(c, "_parent", None)
+                deep = isinstance(par, ast.Call) and (
+                    call_name(par) or "").endswith("deepcopy")
+                ctx.check(deep, c, f"{how} keeps entries of its own",
+                          f"{m.name}.{q} builds object state with {how}: "
+                          f"the copy shares the mutable entries of the "
+                          f"module-level defaults `{nm.id}` "
+                          f"({', '.join(norm(v) for v in muts[:3])}); an "
+                          "in-place edit through one curve (a stored "
+                          "setting read back and edited) changes the "
+                          "default of every later fit")
+    ctx.floor("state built from a module-level table of defaults", n_sites, 1)
+
+
 RULES = [
     ("C10-R1", "no in-place mutation of by-value arguments", r1_no_mutation),
     ("C10-R2", "no retention of caller objects by reference",
@@ -562,4 +626,6 @@ RULES = [
      "rating cache is keyed on it)", r7_edits_change_the_hash),
     ("C10-R8", "a result derived from a by-value argument is a new object "
      "on every return path or on none", r8_uniform_result_ownership),
+    ("C10-R9", "state built from a module-level table of defaults does not "
+     "share the table's mutable entries", r9_defaults_deep_copied),
 ]
